@@ -122,6 +122,7 @@ H_LETTERS = collections.OrderedDict([
     ('success-after-retry', ['drop', 'valid']),
     ('success:cmd', ['valid']),  # ... through Inverter.send_command() instead of read_sensor()
     ('silent:cmd', None),
+    ('NEWLOOP', None),           # the calls so far ran in one asyncio.run(), the following ones run in the next
 ])
 
 
@@ -143,6 +144,9 @@ def run_b(cfg, hist):
     amb = False     # a rejection happened since: both readings of the property accepted
     vio = []
     for name in hist:
+        if name == 'NEWLOOP':
+            s.newloop()
+            continue
         s.peer.forced = h_script(cfg, name)
         if name == 'connect-error':
             s.peer.forced = []
